@@ -323,13 +323,15 @@ func runC01(c *Ctx) {
 	ruleForcedChunked(c, p, "C01.F")
 	c.Rule("C01.X", "each client's own status and body arrive whole: an interim 1xx never latches a writer (= C03.X); a retried upload cannot be raced or robbed by the attempt it supersedes (= C06.X)", 10)
 	ruleInterimThenFinal(c, p, "C01.X")
+	ruleWriteThrough(c, p, "C01.X")
 	if f := p.Func("agent/utils.postResponseWithRetries"); f != nil {
 		c06Fence(c, p, "C01.X", f)
 	}
 	c.Rule("C01.B", "App Engine store: multi-part bodies are recorded and read back in part order (= C19.K)", 2)
 	ruleBlobParts(c, p, "C01.B")
-	c.Rule("C01.C", "App Engine proxy GET response cache: one injective key of (user, URL)", 5)
+	c.Rule("C01.C", "App Engine proxy: the GET response cache uses one injective key of (user, URL); memcache keys of stored requests/responses are injective in (backend ID, request ID) (= C17.S, C19.S)", 11)
 	ruleAppResponseCacheKey(c, p, "C01.C")
+	ruleCacheKeysByUse(c, p, "C01.C")
 	c.Rule("C01.A", "chain of custody of (backend ID, request ID) through the agent, by parameter role", 35)
 	if f := c.need(p, "C01.A", "agent.pollForNewRequests"); f != nil {
 		if g := c.UniqueCall("C01.A", p, f, false, ModPath+"/agent.processOneRequest"); g != nil {
